@@ -1,5 +1,6 @@
 import JsightVerif.Proofs.Keyword
 import JsightVerif.Spec.Keywords
+import JsightVerif.Proofs.ScanBan
 /-
   C13 — exactly the language's keywords are recognised as directives.
   All statements are about the *regenerated* scanner table `Gen.prog` and the
@@ -77,5 +78,17 @@ example : accepts (strBytes "404") = some .stateResponseBodyOrKeyword := by deci
 example : accepts (strBytes "Operationid") = none := by decide +kernel
 example : accepts (strBytes "600") = none := by decide +kernel
 example : accepts (strBytes "GETX") = none := by decide +kernel
+
+/-! ### the whole scanning stage (Proofs/ScanBan.lean) -/
+
+/-- **C13 (every project)**: whatever the files, the include graph and the fuel — every directive of the
+    forest the scanning stage produces was created from a keyword text of the directive table, and its
+    kind is the one the table gives to that text (`directive.NewDirectiveType`): nothing else ever
+    becomes a directive, in the root file, in INCLUDEd files or in MACRO bodies. -/
+theorem C13_scanned_forest_keywords (fsys : FileSys) (n : Nat) (rootName : Bytes) (content : Array UInt8)
+    (lenAt : BodyKind → Nat → LenAnswer) (banned : List Kind) (c' : Core)
+    (h : Core.run fsys n { current := { name := rootName, env := mkEnv content lenAt, sc := Sc.init .stateRoot }, banned := banned } = .ok c') :
+    Tree.allList kindOfKeyword c'.ctx.forest = true :=
+  scan_forest_keywords fsys n rootName (mkEnv content lenAt) banned c' h
 
 end JsightVerif.Props.C13
